@@ -18,7 +18,7 @@ use crate::ops::{
     GroupedQueryAttentionMatMul, LayerNormalization, MatMulIntegerToFloat, RMSNormalization,
     Reciprocal, ReduceMean, RepeatInterleave, Shape, Silu, Softmax, Swish, SymbolInfo, Transpose,
 };
-use crate::optimize::pattern_matcher::{Match, Pattern};
+use crate::optimize::pattern_matcher::{Match, Pattern, broadcasts_as_scalar};
 use crate::value::ValueType;
 
 #[derive(Debug)]
@@ -289,8 +289,13 @@ impl<PF: PatternFusion + 'static> FusionVisitor for PatternFusionVisitor<PF> {
 
 /// Additional graph querying methods used in fusions.
 trait GraphQuery {
-    /// Extract the scalar value from a constant node.
-    fn get_scalar<T>(&self, node_id: NodeId) -> Option<T>
+    /// Extract the value from a single-element constant node which is used as
+    /// a scalar in a binary operation whose other operand is `other_id`.
+    ///
+    /// Returns `None` if the constant has a rank greater than zero and
+    /// broadcasting it against the other operand might add dimensions to the
+    /// result. See [`broadcasts_as_scalar`].
+    fn get_scalar_operand<T>(&self, node_id: NodeId, other_id: NodeId) -> Option<T>
     where
         Constant: TypedConstant<T>;
 
@@ -310,12 +315,16 @@ trait GraphQuery {
 }
 
 impl GraphQuery for Graph {
-    fn get_scalar<T>(&self, node_id: NodeId) -> Option<T>
+    fn get_scalar_operand<T>(&self, node_id: NodeId, other_id: NodeId) -> Option<T>
     where
         Constant: TypedConstant<T>,
     {
         self.get_node(node_id).and_then(|node| match node {
-            Node::Constant(const_node) => const_node.as_scalar(),
+            Node::Constant(const_node)
+                if broadcasts_as_scalar(self, const_node.ndim(), [other_id].into_iter()) =>
+            {
+                const_node.as_scalar()
+            }
             _ => None,
         })
     }
@@ -608,8 +617,9 @@ impl PatternFusion for SwishFusion {
 
     fn maybe_fuse(&self, pat_match: &Match, g: &Graph) -> Result<Swish, FusionError> {
         let alpha_input = pat_match.node_id("alpha").expect("missing symbol");
+        let x_input = pat_match.node_id("x").expect("missing symbol");
         let alpha = g
-            .get_scalar(alpha_input)
+            .get_scalar_operand(alpha_input, x_input)
             .ok_or(FusionError::CheckFailed("alpha not a scalar"))?;
         Ok(Swish { alpha })
     }
@@ -637,6 +647,14 @@ impl OperatorAxis for Softmax {
     fn get_axis(&self) -> Option<i32> {
         Some(self.axis as i32)
     }
+}
+
+/// Return the ID of the first output of an operator node.
+fn op_output(graph: &Graph, op_node_id: NodeId) -> Option<NodeId> {
+    graph
+        .get_node(op_node_id)
+        .and_then(|n| n.as_operator())
+        .and_then(|op| op.output_ids().first().copied().flatten())
 }
 
 /// Test if an operator is applied to the last axis of its input.
@@ -732,8 +750,8 @@ impl PatternFusion for LayerNormalizationFusion {
         }
 
         let epsilon_input = pat_match.node_id("epsilon").unwrap();
-        let epsilon = graph
-            .get_scalar(epsilon_input)
+        let epsilon = op_output(graph, norm_mean)
+            .and_then(|variance| graph.get_scalar_operand(epsilon_input, variance))
             .ok_or(FusionError::CheckFailed("epsilon not a scalar"))?;
 
         Ok(LayerNormalization {
@@ -786,10 +804,10 @@ impl PatternFusion for RMSNormalizationFusion {
 
     fn maybe_fuse(&self, rms_match: &Match, graph: &Graph) -> Result<Self::Operator, FusionError> {
         let epsilon_input = rms_match.node_id("epsilon").unwrap();
-        let epsilon = graph
-            .get_scalar(epsilon_input)
-            .ok_or(FusionError::CheckFailed("epsilon not a scalar"))?;
         let norm_mean = rms_match.node_id("norm_mean").unwrap();
+        let epsilon = op_output(graph, norm_mean)
+            .and_then(|mean_square| graph.get_scalar_operand(epsilon_input, mean_square))
+            .ok_or(FusionError::CheckFailed("epsilon not a scalar"))?;
 
         if !op_applied_to_last_axis::<ReduceMean>(graph, norm_mean) {
             return Err(FusionError::CheckFailed("not applied to last axis"));
@@ -888,8 +906,8 @@ impl FusionVisitor for MatMulScaleFusion {
             }
 
             let [lhs, rhs] = binary_op_input_ids(op_node)?;
-            let lhs_scalar = graph.get_scalar(lhs);
-            let rhs_scalar = graph.get_scalar(rhs);
+            let lhs_scalar = graph.get_scalar_operand(lhs, rhs);
+            let rhs_scalar = graph.get_scalar_operand(rhs, lhs);
 
             match op_type {
                 "Mul" => match (lhs_scalar, rhs_scalar) {
